@@ -1406,6 +1406,13 @@ func (vc *VC) doAlloc(st *State, x *ssa.Alloc) {
 	st.cells[x] = vc.zeroOf(ty)
 	vc.allocCount++
 	vc.allocSeq[x] = vc.allocCount
+	if vc.inlineDepth > 0 {
+		// locals of an inlined callee are not names of the function under contract
+		if vc.inlineAllocs == nil {
+			vc.inlineAllocs = map[*ssa.Alloc]bool{}
+		}
+		vc.inlineAllocs[x] = true
+	}
 	vc.addrs[x] = &Addr{Kind: "cell", Cell: x, Typ: ty, Sort: vc.sortOf(ty)}
 	vc.vals[x] = "0"
 }
